@@ -315,7 +315,7 @@ func transformTokens(rt *rapid.T, toks []bn.Tok, doDigits, doSyn, doRename, doLa
 		n := rapid.IntRange(1, 3).Draw(rt, "seps")
 		wrote := false
 		for k := 0; k < n; k++ {
-			choice := rapid.IntRange(0, 6).Draw(rt, "sep")
+			choice := rapid.IntRange(0, 8).Draw(rt, "sep")
 			if choice == 1 || choice == 3 || choice == 4 {
 				// a comment right after '/' would merge with it into a comment opener
 				if cur := b.String(); strings.HasSuffix(cur, "/") {
@@ -329,6 +329,12 @@ func transformTokens(rt *rapid.T, toks []bn.Tok, doDigits, doSyn, doRename, doLa
 				b.WriteString([]string{"/* c" + fmt.Sprint(k) + " */", "/**/", "/***/", "/* x **/", "/** doc **/", "/*/ toggle */", "/* a * b / c */", "/*\t*/"}[rapid.IntRange(0, 7).Draw(rt, "commentForm")])
 			case choice == 2 && !noBreak:
 				b.WriteString("\n")
+				cnt.layout++
+			case choice == 7:
+				// a carriage return is a blank, with or without a line feed after it
+				b.WriteString("\r")
+			case choice == 8 && !noBreak:
+				b.WriteString("\r\n")
 				cnt.layout++
 			case choice == 3 && !noBreak:
 				b.WriteString("// line comment ; } \"\n")
